@@ -259,7 +259,7 @@ def _work(args):
                 ops = random_ops(rng, len(residues), rng.randint(1, oplen))
             recs = build_file(path, residues, vel, title, box)
             try:
-                ev = record(path, recs, ops, title, box)
+                ev = common.guarded(record, 180, path, recs, ops, title, box)
             except Exception as exc:
                 import traceback
                 ev = [{'op': 'exception', 'type': type(exc).__name__, 'text': traceback.format_exc()[-800:]}]
